@@ -367,6 +367,29 @@ func (p *plan) decide(c *uni.Call) uni.Action {
 	return uni.Action{}
 }
 
+// router is the decider of the client: it hands every call to the plan of the transaction it belongs to, so
+// that the faults on ResolveLock RPCs still apply when the resolution runs in the background of later cases.
+type router struct {
+	mu    sync.Mutex
+	plans map[uint64]*plan
+}
+
+func (r *router) add(p *plan) {
+	r.mu.Lock()
+	r.plans[p.startTS] = p
+	r.mu.Unlock()
+}
+
+func (r *router) decide(c *uni.Call) uni.Action {
+	r.mu.Lock()
+	p := r.plans[c.StartTS]
+	r.mu.Unlock()
+	if p == nil {
+		return uni.Action{}
+	}
+	return p.decide(c)
+}
+
 func (p *plan) anyHeld() bool {
 	p.mu.Lock()
 	defer p.mu.Unlock()
@@ -418,6 +441,7 @@ type caseRec struct {
 	latest    map[string]mval
 	flushErr  string // first error reported by Flush/FlushWait to the driver
 	aborted   string // driver could not finish the case (watchdog)
+	plan      *plan
 	faults    map[string]int
 	reads     map[string]int
 	heldReleasedByWait, heldReleasedByStep int
@@ -435,7 +459,7 @@ type viol struct {
 
 // runCase drives one pipelined transaction; violations of the read/error oracles are returned at once,
 // the wire and truth oracles run after the universe has drained.
-func runCase(u *uni.Universe, c, c2 *uni.ClientStore, s *spec) (rec *caseRec, vs []viol) {
+func runCase(u *uni.Universe, rt *router, c, c2 *uni.ClientStore, s *spec) (rec *caseRec, vs []viol) {
 	rec = &caseRec{s: s, latest: map[string]mval{}, reads: map[string]int{}}
 	ctx := context.Background()
 	addViol := func(step int, sig, format string, a ...any) {
@@ -466,11 +490,8 @@ func runCase(u *uni.Universe, c, c2 *uni.ClientStore, s *spec) (rec *caseRec, vs
 	_ = failpoint.Enable("tikvclient/pipelinedMemDBMinFlushSize", fmt.Sprintf("return(%d)", s.MinSize))
 	_ = failpoint.Enable("tikvclient/pipelinedMemDBForceFlushSizeThreshold", fmt.Sprintf("return(%d)", s.ForceSize))
 	p := &plan{u: u, s: s, counts: map[string]int{}}
-	c.Net.SetDecider(p.decide)
-	defer func() {
-		p.releaseAll(true)
-		rec.faults = p.counts
-	}()
+	rec.plan = p
+	defer p.releaseAll(true)
 	txn, err := c.Begin(tikv.WithPipelinedTxn(s.FlushConc, s.ResolveConc, 0))
 	if err != nil {
 		rec.aborted = "begin: " + err.Error()
@@ -480,6 +501,7 @@ func runCase(u *uni.Universe, c, c2 *uni.ClientStore, s *spec) (rec *caseRec, vs
 	p.mu.Lock()
 	p.startTS = rec.startTS
 	p.mu.Unlock()
+	rt.add(p)
 	if s.ConflictKey != "" {
 		// another transaction commits a key after our start ts: flushing that key must fail
 		ct, err := c2.Begin()
@@ -1001,13 +1023,14 @@ func runUniverse(t *testing.T, r *vrep.Report, rng *rand.Rand, uniNo, nCases int
 		r.Inconc("client: %v", err)
 		return
 	}
+	rt := &router{plans: map[uint64]*plan{}}
+	c.Net.SetDecider(rt.decide)
 	prefixes := rng.Perm(nCases)
 	var recs []*caseRec
 	t0 := time.Now()
 	for i := 0; i < nCases; i++ {
 		s := gen(rng, firstID+i, prefixes[i])
-		rec, vs := runCase(u, c, c2, s)
-		c.Net.SetDecider(nil)
+		rec, vs := runCase(u, rt, c, c2, s)
 		for _, v := range vs {
 			r.Violate("e2e:"+v.sig, v.msg, v.detail)
 		}
@@ -1079,6 +1102,12 @@ func runUniverse(t *testing.T, r *vrep.Report, rng *rand.Rand, uniNo, nCases int
 	}
 	for _, rec := range recs {
 		s := rec.s
+		rec.plan.mu.Lock()
+		rec.faults = map[string]int{}
+		for k, v := range rec.plan.counts {
+			rec.faults[k] = v
+		}
+		rec.plan.mu.Unlock()
 		wv, ws := checkWire(rec, calls)
 		tv, _ := checkTruth(rec, truths[rec], locks, calls)
 		for _, v := range append(wv, tv...) {
@@ -1179,4 +1208,6 @@ func TestVerifC16(t *testing.T) {
 	r.Floor("fault:flush:split-at-rpc", 5)
 	r.Floor("fault:flush:drop-req", 5)
 	r.Floor("commit_failed", 3)
+	r.Floor("fault:resolve:split-at-rpc", 5)
+	r.Floor("fault:flush:lost-for-good", 50)
 }
